@@ -61,7 +61,7 @@ pub fn show_note(o: W, base: &[u8], n: &Note) -> R {
 
 pub fn show_notes<E: EndianParse>(o: W, base: &[u8], it: NoteIterator<E>) -> R {
     o.write_str("[")?;
-    for (k, n) in it.enumerate() {
+    for (k, n) in Hinted(it).enumerate() {
         sep(o, k)?;
         show_note(o, base, &n)?;
     }
@@ -70,7 +70,7 @@ pub fn show_notes<E: EndianParse>(o: W, base: &[u8], it: NoteIterator<E>) -> R {
 
 pub fn show_iter<T: Show>(o: W, it: impl Iterator<Item = T>) -> R {
     o.write_str("[")?;
-    for (k, x) in it.enumerate() {
+    for (k, x) in Hinted(it).enumerate() {
         sep(o, k)?;
         x.show(o)?;
     }
@@ -109,7 +109,7 @@ pub fn run_notes<E: EndianParse>(o: W, e: E, c: Class, align: usize, d: &[u8], q
                 o.write_str("[")?;
                 for i in 0..q[1].us() {
                     sep(o, i)?;
-                    match it.next() {
+                    match { let _ = it.size_hint(); let r = it.next(); let _ = it.size_hint(); r } {
                         Some(n) => show_note(o, d, &n)?,
                         None => o.write_str("none")?,
                     }
@@ -185,7 +185,7 @@ pub fn run_viter<E: EndianParse>(
                 o.write_str("[")?;
                 match all {
                     None => {
-                        for (i, x) in it.enumerate() {
+                        for (i, x) in Hinted(it).enumerate() {
                             sep(o, i)?;
                             x.show(o)?;
                         }
@@ -193,7 +193,7 @@ pub fn run_viter<E: EndianParse>(
                     Some(n) => {
                         for i in 0..n {
                             sep(o, i)?;
-                            match it.next() {
+                            match { let _ = it.size_hint(); let r = it.next(); let _ = it.size_hint(); r } {
                                 Some(x) => x.show(o)?,
                                 None => o.write_str("none")?,
                             }
@@ -209,7 +209,7 @@ pub fn run_viter<E: EndianParse>(
                 o.write_str("[")?;
                 match all {
                     None => {
-                        for (i, (x, aux)) in it.enumerate() {
+                        for (i, (x, aux)) in Hinted(it).enumerate() {
                             sep(o, i)?;
                             o.write_str("[")?;
                             x.show(o)?;
@@ -221,7 +221,7 @@ pub fn run_viter<E: EndianParse>(
                     Some(n) => {
                         for i in 0..n {
                             sep(o, i)?;
-                            match it.next() {
+                            match { let _ = it.size_hint(); let r = it.next(); let _ = it.size_hint(); r } {
                                 Some((x, _)) => x.show(o)?,
                                 None => o.write_str("none")?,
                             }
@@ -265,7 +265,7 @@ pub fn show_symver_q<E: EndianParse>(
         None => o.write_str("none"),
         Some(d) => {
             write!(o, "def({} {} {} [", d.hash, d.flags, d.hidden as u8)?;
-            for (k, n) in d.names.enumerate() {
+            for (k, n) in Hinted(d.names).enumerate() {
                 sep(o, k)?;
                 show_res(o, n, |o, s| show_range(o, dbase, s.as_bytes()))?;
             }
